@@ -62,7 +62,8 @@ func oracleMatch(req types.PlacementRequirements, own types.Attributes, att map[
 // ---- EX: exhaustive small-scope comparison of MatchRequirements ----
 
 func CheckMatchRequirements(thorough bool) (extraResult, error) {
-	alpha := []types.Attribute{{Key: "a", Value: "1"}, {Key: "b", Value: "1"}, {Key: "a", Value: "2"}}
+	// an attribute value may legally be the empty string: a provider LACKING the key does not cover {a: ""}
+	alpha := []types.Attribute{{Key: "a", Value: "1"}, {Key: "b", Value: "1"}, {Key: "a", Value: "2"}, {Key: "c", Value: ""}}
 	subsets := func() []types.Attributes {
 		var out []types.Attributes
 		for m := 0; m < 1<<len(alpha); m++ {
@@ -89,6 +90,15 @@ func CheckMatchRequirements(thorough bool) (extraResult, error) {
 	seen := map[string]bool{}
 	for _, R := range subsets {
 		for _, O := range subsets {
+			// the update guard's predicate (Order.MatchAttributes) over the same sets
+			if got, want := (mtypes.Order{Spec: dtypes.GroupSpec{Name: "g", Requirements: types.PlacementRequirements{Attributes: R}}}).MatchAttributes(O), covers(O, R); got != want {
+				sig := fmt.Sprintf("match-attributes:got=%v-want=%v", got, want)
+				if !seen[sig] {
+					seen[sig] = true
+					viols = append(viols, Viol{"C08.match-requirements", sig, fmt.Sprintf("Order.MatchAttributes(required=%v; provider=%v) = %v, the statement gives %v", R, O, got, want)})
+				}
+			}
+			n++
 			for _, all := range lists {
 				for _, any := range lists {
 					for i1, a1 := range attChoices {
@@ -173,8 +183,12 @@ func scAttr() Scenario {
 		aCreateDeploymentReq("T1", 2, "aaa=1,bbb=1;all=U1", reqOf(ab, []string{"U1"}, nil)),
 		aCreateDeploymentReq("T1", 3, "aaa=1;any=U1,U2", reqOf(a1, nil, []string{"U1", "U2"})),
 		aCreateDeploymentReq("T2", 1, "aaa=1;all=U1;any=U2", reqOf(a1, []string{"U1"}, []string{"U2"})),
+		// a tenant that only wants a provider vetted by U1 (no attribute required), and an attribute whose required value is ""
+		aSign("U1", "P1", nil, "nothing"),
+		aCreateDeploymentReq("T1", 5, "none;all=U1", reqOf(nil, []string{"U1"}, nil)),
+		aCreateDeploymentReq("T1", 6, "ccc=", reqOf(attrs("ccc", ""), nil, nil)),
 	)
-	for _, b := range []bidRef{{"T1", 1, 1, 1, "P1"}, {"T1", 2, 1, 1, "P1"}, {"T1", 3, 1, 1, "P1"}, {"T2", 1, 1, 1, "P1"}} {
+	for _, b := range []bidRef{{"T1", 1, 1, 1, "P1"}, {"T1", 2, 1, 1, "P1"}, {"T1", 3, 1, 1, "P1"}, {"T2", 1, 1, 1, "P1"}, {"T1", 5, 1, 1, "P1"}, {"T1", 6, 1, 1, "P1"}} {
 		al = append(al, aCreateBid(b, 2, 5), aBidOp("CreateLease", b), aBidOp("CloseLease", b))
 	}
 	al = append(al,
@@ -297,10 +311,12 @@ func (chkC08) CheckTrans(t *TransCtx) (out []Viol) {
 		}
 		k := w.Cast.S(t.Act.Tag["provider"]) + "/" + w.Cast.S(t.Act.Tag["auditor"])
 		model := map[string]string{}
+		_, present := t.Pre.Audits[k]
 		for _, a := range t.Pre.Audits[k].Attributes {
 			model[a.Key] = a.Value
 		}
 		if m, ok := t.Act.Msg(w.Cast).(*atypes.MsgSignProviderAttributes); ok {
+			present = true // signing vouches for the provider, even with an empty attribute list
 			for _, a := range m.Attributes {
 				model[a.Key] = a.Value
 			}
@@ -312,13 +328,19 @@ func (chkC08) CheckTrans(t *TransCtx) (out []Viol) {
 			for _, key := range m.Keys {
 				delete(model, key)
 			}
+			if len(model) == 0 {
+				present = false // a revocation that leaves nothing attested withdraws the attestation itself
+			}
 		}
 		got := map[string]string{}
+		_, gotPresent := t.Post.Audits[k]
 		for _, a := range t.Post.Audits[k].Attributes {
 			got[a.Key] = a.Value
 		}
 		if fmt.Sprint(got) != fmt.Sprint(model) {
 			add("attestation-model", "attestation-ne-model:"+t.Act.Kind, "the attestation of %s by %s is %v after this request, the requests so far amount to %v", t.Act.Tag["provider"], t.Act.Tag["auditor"], got, model)
+		} else if gotPresent != present {
+			add("attestation-model", fmt.Sprintf("attestation-present=%v-want=%v:%s", gotPresent, present, t.Act.Kind), "after this request the attestation record of %s by %s exists=%v, the requests so far amount to exists=%v (an auditor that revoked everything no longer signs for the provider; orders naming it in signed_by would still match)", t.Act.Tag["provider"], t.Act.Tag["auditor"], gotPresent, present)
 		}
 	case "CreateBid":
 		if !t.Res.OK {
